@@ -24,7 +24,10 @@ InitShapes == [c1 |-> <<"t1", "t2">>, c2 |-> <<"t2">>, c3 |-> <<"t3">>, c4 |-> <
 InitLabels == [c1 |-> <<"t1">>, c2 |-> <<>>, c3 |-> <<"t3">>, c4 |-> <<"t2">>, c5 |-> <<>>]
 InitRawDeps == [r1 |-> {"r2"}, r2 |-> {}, r3 |-> {}]
 RawFile == [r1 |-> 1, r2 |-> 1, r3 |-> 2]
-InitMembers == {"c1", "c2", "c3"}
+\* Shape 1: three member cells, two raw cells.  Shape 2: more raw cells than cells (a raw cell's
+\* position in the raw-cell list is not a position in the cell list).
+CONSTANT Shape
+InitMembers == IF Shape = 1 THEN {"c1", "c2", "c3"} ELSE {"c3"}
 InitRMembers == {"r1", "r2"}
 
 Init == /\ members = InitMembers /\ rmembers = InitRMembers
@@ -36,7 +39,7 @@ Init == /\ members = InitMembers /\ rmembers = InitRMembers
         /\ hist = <<>>
 
 SetToSeq(S) == CHOOSE s \in [1..Cardinality(S) -> S] : \A i, j \in DOMAIN s : i # j => s[i] # s[j]
-InitRec == [members |-> SetToSeq(InitMembers), rmembers |-> SetToSeq(InitRMembers),
+InitRec == [members |-> SetToSeq(InitMembers), rmembers |-> IF Shape = 1 THEN SetToSeq(InitRMembers) ELSE <<"r2", "r1">>,
             name |-> InitName, refs |-> InitRefs, shapes |-> InitShapes, labels |-> InitLabels,
             rawdeps |-> [r \in Raws |-> SetToSeq(InitRawDeps[r])], rawfile |-> RawFile,
             tagmaps |-> [m \in {"swap12", "t1to3"} |->
